@@ -228,7 +228,10 @@ def gen_plan(profile, seed, tier="quick"):
         if o["op"] == "call":
             how = _wchoice(rng, [("dtype", 4), ("values", 2), ("layout", 1.5), ("grad", 1.5)])
             if how == "dtype":
-                sb["arg"]["dtype"] = other_dtype(sb["arg"]["dtype"])
+                # the other precision, or (20 %) a reduced precision the pinned
+                # library rejects - judged like any other call if accepted
+                sb["arg"]["dtype"] = other_dtype(sb["arg"]["dtype"]) if rng.random() < 0.8 \
+                    else _pick(rng, ["bfloat16", "float16"])
             elif how == "values":
                 sb["arg"]["seed"] = rng.randrange(1 << 30)
             elif how == "layout":
@@ -239,7 +242,7 @@ def gen_plan(profile, seed, tier="quick"):
         else:
             how = _wchoice(rng, [("dtype", 4), ("mask", 3), ("perturb", 1), ("shape", 1)])
             if how == "dtype":
-                sb["cast"] = "float64" if rng.random() < 0.5 else "float32"
+                sb["cast"] = _pick(rng, ["float64", "float32", "float64", "float32", "bfloat16"])
             elif how == "mask":
                 sb["mask"] = [_pick(rng, ["keep", "none"]) for _ in range(3)]
             elif how == "perturb":
@@ -317,7 +320,8 @@ def gen_plan(profile, seed, tier="quick"):
                              "rg_low": rg_low, "rg_high": rg_high, "grad_mode": gm,
                              "seed": rng.randrange(1 << 30), "i6": rng.random() < 0.3,
                              "as_tuple": rng.random() < 0.2, "low_view": rng.random() < 0.2,
-                             "high_view": rng.random() < 0.15})
+                             "high_view": rng.random() < 0.2,
+                             "view_dims": [rng.randrange(6), rng.randrange(6)]})
                 regs[c].append((out, catalog.INV_OF[f], "inv",
                                 (rg_low or rg_high) and gm in ("ambient", "enable_grad")))
                 if rng.random() < 0.35:
@@ -386,7 +390,8 @@ def gen_plan(profile, seed, tier="quick"):
                     nm, ld = _pick(rng, tables.INVALID), _pick(rng, tables.LOADERS)
                 lop = {"op": "load", "id": new_id(), "loader": ld, "name": nm}
                 if rng.random() < 0.12:
-                    lop["form"] = _pick(rng, ["npstr", "strsub", "upper", "padded", "suffixed"])
+                    lop["form"] = _pick(rng, ["npstr", "strsub", "upper", "padded", "suffixed",
+                                              "userpath", "userpath_npz", "userpathlib"])
                 prog.append(lop)
             elif k == "extra":
                 prog.append({"op": "extra", "id": new_id(), "index": rng.randrange(8),
